@@ -8,7 +8,7 @@ EXTENDS Adder, Json, IOUtils
 
 Recs == ndJsonDeserialize(IOEnv.TRACE_FILE)
 
-FailedAll(r) == Failed(r.in, r.out) \cup (IF ContentOK(r.out) THEN {} ELSE {"ContentOK"})
+FailedAll(r) == Failed(r.in, NormGraph(r.out)) \cup (IF ContentOK(r.out) THEN {} ELSE {"ContentOK"})
 
 Verdicts == [i \in 1..Len(Recs) |->
                 [i |-> i, failed |-> FailedAll(Recs[i]), conforms |-> Recs[i].partial \/ Conforms(Recs[i].in, Recs[i].out)]]
